@@ -510,6 +510,12 @@ def loop_ctx(rng, variant):
         s.wait([w], ms=10000)
         s.ctl('q')
         s.ctl('unhold', end='B')
+        # the connection object whose write has just failed is unregistered, not dead: its owner (a client stream writing its
+        # reset with a context of its own) writes on it once more, and that envelope is posted and read
+        r2 = s.op('r', end='B', addr='A')
+        w2 = s.op('w', end='A', addr='B', v=hval(g, 'srcA', small=True))
+        s.wait([w2, r2], ms=10000)
+        s.ctl('q')
     elif variant == 'pre-write':
         w = s.op('w', end='A', addr='B', v=hval(g, 'srcA', small=True), pre=True)
         s.wait([w], ms=10000)
